@@ -168,7 +168,10 @@ def _arg(env, v, world=None, node_id=None, label="", self_obj=None):
         if "$tuple" in v:
             return tuple(_arg(env, x, world, node_id, label, self_obj) for x in v["$tuple"])
         if "$list" in v:
-            return [_arg(env, x, world, node_id, label, self_obj) for x in v["$list"]]
+            lst = [_arg(env, x, world, node_id, label, self_obj) for x in v["$list"]]
+            if world is not None:
+                world.own_seq(node_id or "?", "arg:" + label, lst)
+            return lst
         if "$arr" in v:
             a = np.array([prng.unhex(x) for x in v["$arr"]], dtype=np.float64)
             if v.get("shape"):
@@ -184,6 +187,15 @@ def _arg(env, v, world=None, node_id=None, label="", self_obj=None):
             mod, _, name = v["$cls"].rpartition(".")
             return getattr(importlib.import_module(mod), name)
         return {k: _arg(env, x, world, node_id, label, self_obj) for k, x in v.items()}
+    if isinstance(v, list) and world is not None:
+        import copy as _c
+
+        lst = _c.deepcopy(v)  # a plain list argument (indexes, groups of indexes): the recipe's own copy stays untouched
+        world.own_seq(node_id or "?", "arg:" + label, lst)
+        for sub in lst:
+            if isinstance(sub, list):
+                world.own_seq(node_id or "?", "arg:" + label + "[]", sub)
+        return lst
     return v
 
 
